@@ -104,6 +104,9 @@ impl<'a, R: FsModuleResolver> ImportsVisitor<'a, R> {
 }
 
 impl<R: FsModuleResolver> Visit for ImportsVisitor<'_, R> {
+    // `export` inside a namespace (or a function body) exports from that scope, not from the module
+    fn visit_block_stmt(&mut self, _n: &swc_ecma_ast::BlockStmt) {}
+    fn visit_ts_module_decl(&mut self, _n: &swc_ecma_ast::TsModuleDecl) {}
     fn visit_export_default_expr(&mut self, n: &ExportDefaultExpr) {
         self.symbol_exports.set_default_export(
             SymbolExportDefault::Expr {
